@@ -16,7 +16,10 @@ EXPLANATION = ("Pattern formatter tables and wiring. R1 (exhaustive over the Att
                "name of enumerator i; loglevel_from_string covers every enumerator; out-of-range lookups throw. R4: an unterminated "
                "'%(' and an unknown attribute end in a throw on every path, at construction; the rewritten pattern gets its final "
                "newline. R5: the multi-line splitter is chosen iff the option is on and there are no named args; otherwise at most one "
-               "trailing newline is stripped; the splitter writes one statement per line.")
+               "trailing newline is stripped; the splitter writes one statement per line. R4g: the attribute scan never skips a character "
+               "it has not looked at. R6: MacroMetadata offsets (file name, line, short location). R7: two option sets are equal — and a "
+               "formatter is shared between loggers — only if every data member is equal. R8 (= C16.R3): each sink receives the line "
+               "of its own override pattern if it has one, else the logger's, chosen afresh per sink.")
 NOT_DECIDED = ("The rewritten fmt string for arbitrary literal text and specs, line splitting for every arrangement of newlines as "
                "values, MacroMetadata offset arithmetic for file name / line, attributes used twice (excluded by the property).")
 EXHAUSTIVE = "the Attribute and LogLevel enumerators (tables re-derived from the enums on every run)"
@@ -58,6 +61,11 @@ def run(ctx):
     r2(ctx, facts, attrs)
     r3(ctx, facts)
     r4(ctx, facts)
+    r4_scan(ctx, facts)
+    # which formatter's line a sink receives (shared with C16.R3: own override pattern if the sink has one, else the logger's)
+    from rules import c16
+    from rules.c09 import Renamed
+    c16.r3(Renamed(ctx, "C16.R3", "C12.R8"), facts)
     r5(ctx, facts)
     r6(ctx, facts)
 
@@ -338,6 +346,106 @@ def r4(ctx, facts):
                             for c in setc)
     ctx.ob("C12.R4f", "_generate_fmt_format_string:marks-attribute-used", ok,
            "every accepted %(attribute) marks that attribute as used (looked up by the parsed name)", fn=f)
+
+
+def r4_scan(ctx, facts):
+    """R4g: the attribute scan never skips a character it has not looked at. R7: options equality compares every member."""
+    f = facts.need(PF + "_generate_fmt_format_string", "A")[0]
+    g = f.g
+    pat = f.rec["params"][1]["did"]
+    inits = f.var_inits()
+    searches = [c for c in f.calls(r"basic_string<.*>::(find_first_of|find)$") if var_ref(call_obj(c)) == pat and
+                any(x["k"] == "CharacterLiteral" and x.get("val") == 37 for x in walk(c["args"][0]))]
+    posv = None
+    for vid, i in inits.items():
+        if isnode(i) and any(c is strip(i, casts=True) or in_subtree(c, i) for c in searches):
+            posv = vid
+    if posv is None or len(searches) < 3:
+        raise AnalysisBroken("_generate_fmt_format_string: '%' searches / position variable not found")
+    repl = [c for c in f.calls(r"basic_string<.*>::replace$") if var_ref(call_obj(c)) == pat]
+    rp = npos(f, repl)
+    repl_vars = set(var_ref(c["args"][2]) for c in repl if len(c["args"]) > 2 and var_ref(c["args"][2]) is not None)
+    repl_lits = set(len(x["str"]) for c in repl if len(c["args"]) > 2 for x in walk(c["args"][2]) if x["k"] == "StringLiteral")
+
+    def len_term(e):
+        e = strip(e, casts=True)
+        if is_call(e, r"basic_string<.*>::(length|size)$") and var_ref(call_obj(e)) in repl_vars:
+            return True
+        v = var_ref(e)
+        if v is not None and v != posv:
+            asg = f.assignments_to_var(v)
+            srcs = [a.get("rhs") for a in asg if a["k"] == "BinaryOperator"] + ([inits[v]] if isnode(inits.get(v)) else [])
+            return bool(srcs) and all(len_term(x) or (const_val(x) is not None and const_val(x) in repl_lits) for x in srcs)
+        return False
+
+    def terms(e):
+        e = strip(e, casts=True)
+        if isnode(e) and e["k"] == "BinaryOperator" and e["op"] == "+":
+            return terms(e["lhs"]) + terms(e["rhs"])
+        return [e]
+    bad, n_attr, n_other = [], 0, 0
+    for c in searches:
+        ps = g.positions(c)
+        asg_here = [a for a in f.assignments_to_var(posv) if in_subtree(c, a.get("rhs") if a["k"] == "BinaryOperator" else a)]
+        if not asg_here:
+            continue  # the initial search
+        after_replace = any(g.exists_path(rp, [p_]) and not g.exists_path([p_], rp, avoid_nodes=[q for a in f.assignments_to_var(posv) for q in g.positions(a)]) for p_ in ps) and \
+            all(not g.exists_path([g.entry_node], [p_], avoid_nodes=rp) for p_ in ps)
+        start = c["args"][1] if len(c["args"]) > 1 and not (isnode(c["args"][1]) and c["args"][1]["k"] == "CXXDefaultArgExpr") else None
+        if after_replace:
+            n_attr += 1
+            if start is None or const_val(start) == 0:
+                continue
+            ts = terms(start)
+            ok = sum(1 for t in ts if var_ref(t) == posv) == 1 and all(var_ref(t) == posv or len_term(t) for t in ts)
+            if not ok:
+                bad.append("after a replacement the search resumes at %s" % c["loc"])
+        else:
+            n_other += 1
+            ts = terms(start) if start is not None else []
+            ok = len(ts) == 2 and sum(1 for t in ts if var_ref(t) == posv) == 1 and sum(1 for t in ts if const_val(t) == 1) == 1
+            if not ok:
+                bad.append("after a '%%' that opens no attribute the search resumes at %s" % c["loc"])
+    ctx.ob("C12.R4g", "_generate_fmt_format_string:scan-skips-nothing", not bad and n_attr >= 1 and n_other >= 1,
+           "after an attribute was replaced the search for the next '%%' resumes at the start, at the replacement or right behind it — "
+           "never further; after a '%%' that opens no attribute it resumes at the very next character (%s)" % ("; ".join(bad) or "ok"), fn=f)
+    # R7: two option sets are 'the same formatter' only if every member is equal (formatters are shared between loggers by this test)
+    crec = facts.cls("quill::PatternFormatterOptions", "A")
+    eq = [x for x in facts.fns if x.config == "A" and x.short == "quill::PatternFormatterOptions::operator=="]
+    if not crec or not eq:
+        raise AnalysisBroken("PatternFormatterOptions / its operator== not found")
+    e = eq[0]
+    other_p = e.rec["params"][0]["did"]
+    compared = set()
+    for n in e.walk():
+        sides = None
+        if n["k"] == "BinaryOperator" and n["op"] == "==":
+            sides = (n["lhs"], n["rhs"])
+        elif n["k"] == "CXXOperatorCallExpr" and re.search(r"operator==", n.get("callee") or "") and len(n["args"]) == 2:
+            sides = (n["args"][0], n["args"][1])
+        if sides:
+            a, b = strip(sides[0], casts=True), strip(sides[1], casts=True)
+            for x, y in ((a, b), (b, a)):
+                if is_this_field(x) and isnode(y) and y["k"] == "MemberExpr" and y.get("mname") == x.get("mname") and var_ref(y.get("base")) == other_p:
+                    compared.add(x["mname"])
+    fields = [x["name"] for x in crec["fields"]]
+    conj = not any(n["k"] == "BinaryOperator" and n["op"] == "||" for n in e.walk())
+    ctx.ob("C12.R7a", "PatternFormatterOptions::operator==:every-member", sorted(compared) == sorted(fields) and conj,
+           "two loggers share one PatternFormatter when their options compare equal: equality is the conjunction over every data "
+           "member (members %s, compared %s)" % (sorted(fields), sorted(compared)), fn=e)
+    ne = [x for x in facts.fns if x.config == "A" and x.short == "quill::PatternFormatterOptions::operator!="]
+    if ne:
+        n0 = ne[0]
+        rets = [n0.g.node_ast(r) for r in n0.g.return_nodes()]
+        ok = bool(rets) and all(isnode(strip(r.get("val"))) and strip(r["val"])["k"] == "UnaryOperator" and strip(r["val"])["op"] == "!" and
+                                any(is_call(x, r"PatternFormatterOptions::operator==$") for x in walk(r["val"])) for r in rets)
+        ctx.ob("C12.R7b", "PatternFormatterOptions::operator!=:negation-of-equality", ok, "!= is exactly the negation of ==", fn=n0)
+    # the sharing lookup uses that equality
+    df = facts.need("quill::detail::BackendWorker::_dispatch_transit_event_to_sinks", "A")[0]
+    lam = [x for x in facts.fns if x.config == "A" and x.rec.get("parent") == df.name]
+    uses = [c for fn_ in [df] + lam for c in fn_.calls(r"PatternFormatterOptions::operator(==|!=)$")]
+    ctx.ob("C12.R7c", "_dispatch_transit_event_to_sinks:shares-by-options-equality", bool(uses),
+           "a logger adopts another logger's formatter only after comparing the two option sets (%d comparison(s))" % len(uses), fn=df)
 
 
 def r5(ctx, facts):
